@@ -297,6 +297,8 @@ def run(chk):
         'for $x in $s, $y in $s[. < $x] return $x * $y', 'every $x in $s satisfies $x < 10', '(//a)[1] is (//a)[1]', '//a | //b',
         '//a except //a[1]', 'if (//a) then $n else $s', '$s = $n', '$d eq $d', 'subsequence($ds, 1, 1)', 'reverse($ds)',
         'insert-before($ds, 1, $e)', 'remove($ds, 1)', 'dateTime($dt, $t)',
+        # the namespaces of the selector / of select() reach the dynamic context (namespace nodes of xml.etree trees)
+        'count(//namespace::*)', '(//a)[1]/namespace::*/name()', 'in-scope-prefixes(/*)', 'namespace-uri-for-prefix("p", /*)',
     ]
     pool30 = [
         'let $x := $n return ($x, $n)', 'for-each($s, function($x) { $x + $n })', 'filter($s, function($x) { $x > $n })',
@@ -356,12 +358,12 @@ def run(chk):
             volatile = 'current-dateTime' in expr
             outs = {
                 'fresh': attempt(lambda: P(namespaces=dict(namespaces)).parse(expr).get_results(
-                    XPathContext(doc, variables=variables_for(vk), timezone=tz))),
-                'token': attempt(lambda: token.get_results(XPathContext(doc, variables=variables, timezone=tz))),
+                    XPathContext(doc, namespaces=dict(namespaces), variables=variables_for(vk), timezone=tz))),
+                'token': attempt(lambda: token.get_results(XPathContext(doc, namespaces=namespaces, variables=variables, timezone=tz))),
                 'Selector.select': attempt(lambda: selector.select(doc, variables=variables, timezone=tz)),
                 'Selector.iter_select': attempt(lambda: list(selector.iter_select(doc, variables=variables, timezone=tz))),
                 'select': attempt(lambda: select(doc, expr, namespaces=namespaces, parser=P, variables=variables, timezone=tz)),
-                'token-again': attempt(lambda: token.get_results(XPathContext(doc, variables=variables, timezone=tz))),
+                'token-again': attempt(lambda: token.get_results(XPathContext(doc, namespaces=namespaces, variables=variables, timezone=tz))),
             }
             chk.evaluations += len(outs)
             chk.count('history:' + ('3.1' if v31 else '2.0'))
@@ -378,6 +380,9 @@ def run(chk):
             if after_xml != before_xml:
                 chk.violation('impl-vs-spec', desc, {'input tree changed': after_xml.decode()[:300]})
             chk.nontrivial.add(repr((expr, v31, steps[:si + 1])))
+    # ---------------- 3. schema objects: evaluation with a schema proxy leaves the schema as it found it
+    schema_objects_section(chk)
+
     chk.rule = ('calculus: a fixed corpus of shadowing / nested-range programs + seeded random programs (depth <= 4, three names, caller '
                 'bindings for a random subset) through select, iter_select, Selector (twice), token x {3.1, 2.0 when let-free}; histories: '
                 'seeded sequences of 2-6 evaluations of one token and one Selector over 4 documents (xml.etree and lxml) x 3 variable maps '
@@ -388,6 +393,72 @@ def run(chk):
     if chk.corr_fail and not any(not v['no_failing_input'] for v in chk.violations):
         d0, got, mo = chk.corr_fail[0]
         chk.violation('correspondence-broken', d0, {'impl': got, 'model': mo}, no_input=True)
+
+
+def schema_objects_section(chk):
+    """Evaluations with a bound schema (the typed scenario of C20, parse + static evaluation + dynamic evaluation) must not
+    change the schema: the content of its maps and components is compared from a cold start; after one warm-up pass (lazily
+    cached properties of xmlschema / elementpath such as xpath_node are filled on first use) every attribute of the schema,
+    of each of its components and of the proxy must keep its identity over a second pass."""
+    import xml.etree.ElementTree as ET
+    import xmlschema
+    from elementpath import select, Selector, ElementPathError
+    from elementpath.xpath31 import XPath31Parser
+    from props import c20
+    schema = xmlschema.XMLSchema10(c20.TYPED_XSD)
+    proxy = schema.xpath_proxy
+    root = ET.XML(c20.TYPED_XML)
+
+    def content(sc):
+        maps = {m: sorted(map(str, getattr(sc.maps, m).keys())) for m in ('types', 'elements', 'attributes', 'groups', 'attribute_groups', 'notations')
+                if hasattr(sc.maps, m)}
+        comps = [(type(c).__name__, str(getattr(c, 'name', None)), str(getattr(getattr(c, 'type', None), 'name', None)),
+                  str(getattr(c, 'default', None)), str(getattr(c, 'min_occurs', None)), str(getattr(c, 'max_occurs', None)))
+                 for c in sc.iter_components()]
+        xsd = ET.tostring(sc.source.root if hasattr(sc.source, 'root') else sc.root, encoding='unicode')
+        return maps, comps, xsd
+
+    def identities(sc, px):
+        out = [('schema', sorted((k, id(v)) for k, v in vars(sc).items())), ('proxy', sorted((k, id(v)) for k, v in vars(px).items()))]
+        for c in sc.iter_components():
+            if hasattr(c, '__dict__'):
+                out.append((type(c).__name__ + ':' + str(getattr(c, 'name', None)), sorted((k, id(v)) for k, v in vars(c).items())))
+        return out
+
+    exprs = [e for e, _ in c20.TYPED_CASES] + ['//*', '//@*', 'data(//*[not(*)])', 'i + 1', 'for $x in //i return $x * 2', '//l instance of element(*, xs:anyType)',
+                                               'sum(//l)', 'string-join(//u ! string(), ",")', 'i cast as xs:string', '/r/i = 42']
+
+    def one_pass():
+        n = 0
+        for e in exprs:
+            for how in ('select', 'selector'):
+                chk.evaluations += 1
+                chk.count('schema-objects:' + how)
+                try:
+                    if how == 'select':
+                        select(root, e, schema=proxy, parser=XPath31Parser, namespaces={'p': 'urn:p'})
+                    else:
+                        Selector(e, schema=proxy, parser=XPath31Parser, namespaces={'p': 'urn:p'}).select(root)
+                    n += 1
+                except ElementPathError:
+                    pass
+                except Exception as ex:
+                    chk.violation('foreign-exception', {'expr': e, 'schema': 'typed scenario'}, repr(ex)[:200])
+        return n
+
+    cold = content(schema)
+    done = one_pass()
+    warm_content, warm_ids = content(schema), identities(schema, proxy)
+    one_pass()
+    after_content, after_ids = content(schema), identities(schema, proxy)
+    chk.nontrivial.add(('schema-objects', done))
+    if cold != warm_content or cold != after_content:
+        which = [k for k, (a, b) in zip(('maps', 'components', 'source'), zip(cold, after_content)) if a != b]
+        chk.violation('impl-vs-spec', {'scenario': 'schema objects', 'expressions': len(exprs)}, {'schema content changed by evaluation': which})
+    if warm_ids != after_ids:
+        diff = [(a[0], sorted(set(a[1]) ^ set(b[1]))[:4]) for a, b in zip(warm_ids, after_ids) if a != b][:3]
+        chk.violation('impl-vs-spec', {'scenario': 'schema objects', 'expressions': len(exprs)},
+                      {'attributes of the schema / components / proxy rebound by a second pass of evaluations': repr(diff)[:400]})
 
 
 def replay(rec):
